@@ -47,6 +47,8 @@ InitG == [scen |-> "", mode |-> "clean", src |-> <<>>, snap |-> <<>>, partial |-
           saved |-> <<>>, healthy |-> EmptyFs, damaged |-> FALSE, dmgdel |-> FALSE, dmghow |-> "",
           dmgkey |-> [t |-> "", b |-> -1, n |-> -1, h |-> "", s |-> ""], adopt |-> FALSE]
 
+\* (TLC cannot hold values of different types in one set: where one monitor has several shapes of
+\* detail they are turned into strings where the monitor is stated)
 V(mon, detail) == {<<g.scen, mon, l, ToString(detail)>>}
 If(c, S) == IF c THEN S ELSE {}
 
@@ -279,11 +281,11 @@ ContainmentMonitors(h, f, b, T, loud, nerr, opened, how, dk) ==
        If(opened, {<<"UntouchedNotRestored", p>> : p \in wrong})
   \* (not demanded when what is left is a state fault-free operation can produce, e.g. the last hunk
   \* of an interrupted version gone: nothing can tell that from health)
-  \cup If(how \in {"delete", "trunc0", "half", "garbage"} /\ lostfiles # {} /\ ~loud /\ FormatViol(f) # {}, {<<"AffectedSilent", lostfiles>>})
+  \cup If(how \in {"delete", "trunc0", "half", "garbage"} /\ lostfiles # {} /\ ~loud /\ FormatViol(f) # {}, {<<"AffectedSilent", ToString(lostfiles)>>})
   \* a block that is gone or no longer verifies: every file that needs it is reported, one by one
   \* (a flipped bit counts when the block no longer decodes to content matching its name)
   \cup If(dk.t = "Block" /\ ~BlockOK(f, dk.h) /\ lostfiles # {} /\ nerr < Cardinality(lostfiles),
-          {<<"AffectedSilent", <<"per-file", lostfiles, nerr>> >>})
+          {<<"AffectedSilent", ToString(<<"per-file", lostfiles, nerr>>)>>})
 
 RestoreMonitors(r) ==
     LET T0  == TreeOfNodes(r.tree)
@@ -365,7 +367,11 @@ ValidateMonitors(r) ==
   \* Damage must be reported when some version no longer restores exactly -- unless what is left is
   \* itself a state fault-free operation can produce (e.g. the last hunk of an interrupted version
   \* gone): no validator can tell that from health.  Quick validation answers for missing files.
+  \* A flipped bit is within the statement when it made the file undecodable or when the file is a
+  \* data block; index hunks carry no checksum, and an altered hunk that still decodes (say with one
+  \* path no longer starting with '/') is not among the damages the statement lists.
   \cup If(g.damaged /\ ~r.panic /\ ~loud /\ DamageMatters(g.healthy, fs) /\ FormatViol(fs) # {}
+             /\ (g.dmghow # "bitflip" \/ g.dmgkey.t = "Block" \/ StateOf(fs, g.dmgkey) = "garbage")
              /\ (~r.quick \/ g.dmgdel),
           {<<"ValidateSilent", <<r.quick, g.dmghow, FormatViol(fs)>> >>})
 
@@ -397,9 +403,9 @@ DiffMonitors(r) ==
     IN
        If(r.panic, {<<"Panic", r.pmsg>>})
   \cup If(r.timeout, {<<"Hang", "diff">>})
-  \cup If(judged /\ r.res # "ok", {<<"DiffWrong", <<"failed", r.res>> >>})
+  \cup If(judged /\ r.res # "ok", {<<"DiffWrong", ToString(<<"failed", r.res>>)>>})
   \cup If(judged /\ r.res = "ok" /\ got # SetDiff(A, B, r.overwrite),
-          {<<"DiffWrong", <<got \ SetDiff(A, B, r.overwrite), SetDiff(A, B, r.overwrite) \ got>> >>})
+          {<<"DiffWrong", ToString(<<got \ SetDiff(A, B, r.overwrite), SetDiff(A, B, r.overwrite) \ got>>)>>})
   \cup If(judged /\ r.res = "ok" /\ ~StrictlyIncreasing(r.changes), {<<"DiffWrong", "not in path order">>})
 
 DoObs(r) ==
